@@ -263,6 +263,8 @@ def _main(prop, tier, seed, replay_file, scratch, t0):
     overlays = {"plain": overlay.build("plain")}
     desc = describe(prop, tier, overlays["plain"], scratch)
     stages = desc["stages"]
+    if any(s["kind"] == "fuzz" for s in stages):
+        overlay.ensure_atheris()
     for s in stages:
         if s["flavour"] not in overlays:
             overlays[s["flavour"]] = overlay.build(s["flavour"])
